@@ -35,8 +35,10 @@ struct ProvSpec {
     api_key: Option<KeySpec>,
     headers: Vec<(String, String)>,
 }
-/// slot = precedence: 0 global config.jsonc, 1 global config.json, 2 RIP_CONFIG, 3 outer rip.jsonc,
-/// 4 outer rip.json, 5 workspace rip.jsonc, 6 workspace rip.json
+/// slot = precedence: 0 global config.jsonc, 1 global config.json, 2 RIP_CONFIG, 3 outer rip.json,
+/// 4 outer rip.jsonc, 5 workspace rip.json, 6 workspace rip.jsonc (find_project_configs collects jsonc before json per
+/// directory and then REVERSES the whole list: inside a project directory rip.json is the lower layer, while in the
+/// global directory config.jsonc is)
 #[derive(Clone, Serialize, Deserialize, Debug, Default)]
 struct Layer {
     slot: u8,
@@ -266,7 +268,7 @@ fn layer_text(l: &Layer) -> String {
     if !body.trim_end().ends_with('}') {
         return body;
     }
-    if l.slot == 0 || l.slot == 3 || l.slot == 5 {
+    if l.slot == 0 || l.slot == 4 || l.slot == 6 {
         // JSONC: comments and a trailing comma
         let mut t = String::from("// generated by rv c19 /* not a block */\n");
         let trimmed = body.trim_end();
@@ -285,10 +287,10 @@ fn layer_relpath(slot: u8, config_home: bool) -> &'static str {
         (0, false) => "home/.rip/config.jsonc",
         (1, false) => "home/.rip/config.json",
         (2, _) => "custom/my-rip.jsonc",
-        (3, _) => "outer/rip.jsonc",
-        (4, _) => "outer/rip.json",
-        (5, _) => "outer/ws/rip.jsonc",
-        _ => "outer/ws/rip.json",
+        (3, _) => "outer/rip.json",
+        (4, _) => "outer/rip.jsonc",
+        (5, _) => "outer/ws/rip.json",
+        _ => "outer/ws/rip.jsonc",
     }
 }
 
